@@ -86,7 +86,7 @@ func matchStatement(cur Statement, node ipld.Node) (_ matchResult, leafMost Stat
 				// (and DeepEqual panics on integers above MaxInt64)
 				return matchResultFalse, cur
 			}
-			return boolToRes(datamodel.DeepEqual(s.value, res))
+			return boolToRes(equalNodes(s.value, res))
 		}
 	case KindGreaterThan:
 		if s, ok := cur.(equality); ok {
@@ -321,3 +321,53 @@ func gt(order int) bool  { return order == 1 }
 func gte(order int) bool { return order == 0 || order == 1 }
 func lt(order int) bool  { return order == -1 }
 func lte(order int) bool { return order == 0 || order == -1 }
+
+// equalNodes is datamodel.DeepEqual with maps compared as what they are in the
+// IPLD data model for this purpose: sets of entries. DeepEqual walks two maps
+// in iteration order, and that order depends on where a node comes from: a map
+// built in memory (literal.Any, Args.Add) lists its keys alphabetically, the
+// same map decoded from DAG-CBOR lists them shortest first, so {"aa":1,"b":2}
+// of a constructed policy did not equal {"aa":1,"b":2} of a decoded invocation.
+func equalNodes(x, y datamodel.Node) bool {
+	if x == nil || y == nil {
+		return x == y
+	}
+	if x.Kind() != y.Kind() {
+		return false
+	}
+	switch x.Kind() {
+	case datamodel.Kind_Map:
+		if x.Length() != y.Length() {
+			return false
+		}
+		for it := x.MapIterator(); !it.Done(); {
+			k, xv, err := it.Next()
+			if err != nil {
+				return false
+			}
+			yv, err := y.LookupByNode(k)
+			if err != nil || !equalNodes(xv, yv) {
+				return false
+			}
+		}
+		return true
+	case datamodel.Kind_List:
+		if x.Length() != y.Length() {
+			return false
+		}
+		xit, yit := x.ListIterator(), y.ListIterator()
+		for !xit.Done() && !yit.Done() {
+			_, xv, err := xit.Next()
+			if err != nil {
+				return false
+			}
+			_, yv, err := yit.Next()
+			if err != nil || !equalNodes(xv, yv) {
+				return false
+			}
+		}
+		return xit.Done() && yit.Done()
+	default:
+		return datamodel.DeepEqual(x, y)
+	}
+}
